@@ -26,6 +26,7 @@ CONSTANTS
     MaxAttack,      \* attacker mutation budget
     AtkNames,       \* names the attacker may create / rename to
     AtkBodies,      \* symlink bodies the attacker may create
+    AtkKinds,       \* subset of {"rename", "exchange", "unlink", "symlink", "mkdir"}
     \* mechanism switches (all TRUE = the code as written); see DESIGN.md 4.3
     ChkAfterDotDot, ChkFinal, ClampDotDot, RestartAbsAtRoot, NoFollowOnOpen,
     EmptyPathIsENOENT, EmitCases
@@ -59,8 +60,9 @@ NoRes == [ok |-> FALSE, err |-> "none"]
 \* path universe of a tree: all raw component sequences up to its maxlen over the names that
 \* occur in it plus "..", ".", "" (so '', '/', '//', 'a//b', 'a/', '/a' are all there) and one
 \* name that does not exist
-CompsOf(t) == {Trees[t].nodes[i].n : i \in DOMAIN Trees[t].nodes} \cup {"..", ".", "", "nx"} \cup Trees[t].extra
-PathsOf(t) == UNION {[1..n -> CompsOf(t)] : n \in 1..Trees[t].maxlen}
+CompsOf(t) == {Trees[t].nodes[i].n : i \in DOMAIN Trees[t].nodes} \cup {"..", ".", "", "nx"}
+PathsOf(t) == IF Trees[t].maxlen = 0 THEN Trees[t].extra   \* explicit path list
+              ELSE UNION {[1..n -> CompsOf(t)] : n \in 1..Trees[t].maxlen}
 
 Init ==
     /\ tree \in DOMAIN Trees
@@ -264,7 +266,11 @@ A_Mkdir ==
 
 Attack ==
     /\ natk < MaxAttack /\ pc \notin {"done"}
-    /\ (A_Rename \/ A_Exchange \/ A_Unlink \/ A_Symlink \/ A_Mkdir)
+    /\ \/ "rename" \in AtkKinds /\ A_Rename
+       \/ "exchange" \in AtkKinds /\ A_Exchange
+       \/ "unlink" \in AtkKinds /\ A_Unlink
+       \/ "symlink" \in AtkKinds /\ A_Symlink
+       \/ "mkdir" \in AtkKinds /\ A_Mkdir
     /\ natk' = natk + 1
     /\ UNCHANGED <<tree, path, op, backend, pc, cur, exp, rem, ntrav, nxt, part, rootPath, retries, res, nsteps>>
 
